@@ -144,12 +144,14 @@ Proof. exact decided_sound_f64. Qed.
 
 (* concurrent race rounds (Race.v): several goroutines on one key whose entry has expired but was not evicted,
    getters and writers released together, nothing deletes, nothing stored can expire. No false alarm: whenever
-   SOME linearisation of the round's calls (any order, instants inside the stores' clock brackets), run through
+   SOME linearisation of the round's calls (Get / Set / SetIfAbsent / Replace on the key and SWEEPS, any order,
+   instants inside the stores' clock brackets; nothing stored in the round expires or falls due), run through
    the reference semantics, returns what the calls returned and makes the epilogue Get return [final], the
    checker accepts; and it does not depend on the order in which stores and gets are listed. *)
 Theorem C12_race_complete : forall fl defttl k T lin m te final,
+  ksorted m ->
   (m_get m k = None \/ exists v d, m_get m k = Some (v, d) /\ forall t, In t T -> expired t d = true) ->
-  Forall (wf_ev k) lin -> Forall (keeps_ev defttl T) lin -> Forall (fun x => In (snd x) T) lin -> In te T ->
+  Forall (wf_ev k) lin -> Forall (keeps_ev fl defttl T) lin -> Forall (fun x => In (snd x) T) lin -> In te T ->
   let run := srun fl defttl m (map (fun x => (snd x, ev_op k (fst x))) lin) in
   snd run = map (fun x => ev_out (fst x)) lin ->
   snd (sstep fl defttl (fst run) te (OGet k)) = OutGet final ->
@@ -168,8 +170,8 @@ Example C12_nonvacuous_race :
   let s1 := {| r_op := OSetIfAbsent 7 11 10000000; r_a := 2000; r_b := 2010; r_ok := true |} in
   let s2 := {| r_op := OReplace 7 12 (-1); r_a := 2001; r_b := 2020; r_ok := true |} in
   let s3 := {| r_op := OSet 7 13 (-1); r_a := 2002; r_b := 2030; r_ok := true |} in
-  let lin := [(EGet None, 2001); (EStore s1, 2005); (EGet (Some (11, 10002005)), 2006); (EStore s2, 2010);
-              (EStore s3, 2011); (EGet (Some (13, 0)), 2012)] in
+  let lin := [(ESweep, 2000); (EGet None, 2001); (EStore s1, 2005); (EGet (Some (11, 10002005)), 2006); (ESweep, 2007);
+              (EStore s2, 2010); (EStore s3, 2011); (EGet (Some (13, 0)), 2012); (ESweep, 2013)] in
   let m := [(7, (-8, 1500))] in
   let run := srun f64 0 m (map (fun x => (snd x, ev_op 7 (fst x))) lin) in
   snd run = map (fun x => ev_out (fst x)) lin /\
